@@ -141,6 +141,11 @@ func runC13(c *eng.Ctx) {
 		c.Floor(4)
 	}
 
+	// ---- R13.5 acquire/release pairing
+	c.Rule("R13.5", "K2")
+	ruleLockPairing(c, "server/partition.go")
+	c.Floor(30)
+
 	// ---- R13.4 identity de-registration
 	c.Rule("R13.4", "K1")
 	n := 0
